@@ -63,7 +63,7 @@ def run(pid, tier, profile="mixed", own=None, nops=None, streams_per_cfg=None, e
     with C.Lock():
         lean_ok, names = C.lean_phase(res, pid, gen_fn=C.regen_arith)
     cfgs = configs(tier, rng, pid)
-    bins = k2.build_all(cfgs)
+    bins = k2.build_all(cfgs + [c for c, _ in (extra_streams or [])])
     for key, (ok, exe, log) in bins.items():
         if not ok:
             res.add_broken("K2 harness %s does not compile against /repo" % key, log)
@@ -197,7 +197,11 @@ def replay(pid, path):
         w = f["cfg_line"].split()
         S, M, simple, nothrow, hm = int(w[2]), int(w[3]), int(w[4]), int(w[5]), int(w[7])
         kind = 0 if simple else (1 if nothrow else 2)
-        cfg = k2.Cfg(S, M, kind, hm)
+        apol = None
+        for ln in f["prefix"][:4]:
+            if ln.startswith("m apol "):
+                apol = int(ln.split()[3])
+        cfg = k2.Cfg(S, M, kind, hm, apol=apol)
         ok, exe, log = k2.harness_for(cfg)
         if not ok:
             print(log)
